@@ -1,4 +1,4 @@
 SPECIFICATION TSpec
-INVARIANTS StatsOk ChainOk ContentsIntact LiveAsLogged AllAligned AllOwned AllDisjoint StaticFirst ChainBlocksDisjoint
+INVARIANTS CursorOk BumpFree StatsOk ChainOk ContentsIntact LiveAsLogged AllAligned AllOwned AllDisjoint StaticFirst ChainBlocksDisjoint
 CONSTRAINT Progress
 POSTCONDITION TraceAccepted
